@@ -243,7 +243,8 @@ def premises(tier):
   from verif.contracts import C02
   Q = ('quick', 'thorough')
   obs = [C02.cdof('s', 'free', Q), C02.cdof('h', 'free', Q), C02.cdof('sh', 'root', Q), C02.cinr('h', 'free', Q), C02.crb_form('chain3[1,2,1]', Q), C02.rne_form('chain3[1,2,1]', Q),
-         C02.crb_form('two-trees[f,1;2]', ('thorough',)), C02.rne_form('two-trees[f,1;2]', ('thorough',)), C02.passive_forward()]
+         C02.crb_form('two-trees[f,1;2]', ('thorough',)), C02.rne_form('two-trees[f,1;2]', ('thorough',)), C02.passive_forward(),
+         C02.cache_coherent('step', 0, Q), C02.cache_coherent('step', 10, Q), C02.cache_coherent('init', 0, Q)]
   for o in obs:
     o.id = o.id.replace('C02/', 'C12/premise/')
   return obs
